@@ -121,7 +121,19 @@ func (a *Attestations) SetGitHubPullRequestApprovalAttestation(repo gitstore.Sto
 // observed the approval.
 func (a *Attestations) GetGitHubPullRequestApprovalAttestationFor(repo gitstore.Storer, appName, refName, fromRevisionID, targetTreeID string) (*sslibdsse.Envelope, error) {
 	indexPath := GitHubPullRequestApprovalAttestationPath(refName, fromRevisionID, targetTreeID)
-	return a.GetGitHubPullRequestApprovalAttestationForIndexPath(repo, appName, indexPath)
+	env, err := a.GetGitHubPullRequestApprovalAttestationForIndexPath(repo, appName, indexPath)
+	if err != nil {
+		return nil, err
+	}
+
+	// The path an attestation is stored at is not signed: only return the
+	// approval if its statement is for the requested change, as is done for
+	// reference authorizations.
+	if err := githubv01.ValidatePullRequestApproval(env, refName, fromRevisionID, targetTreeID); err != nil {
+		return nil, err
+	}
+
+	return env, nil
 }
 
 // GetGitHubPullRequestApprovalAttestationForReviewID returns the requested
